@@ -5,21 +5,38 @@ META = dict(
     LEVEL="exploration",
     RULE=("TreeSequence.ibd_segments / TableCollection.ibd_segments are called on (a) every sequence of 2 forests "
           "on <= 4 nodes (quick; also 3 forests on <= 4 nodes and 2 forests on 5 nodes in thorough), squashed or "
-          "unsquashed, and (b) forest-walk generated tree sequences (internal samples, unary nodes, multiple roots, "
-          "gaps, unsquashed adjacent edges, 40-110 node 'wide' instances) with default / within lists of arbitrary "
-          "nodes / between partitions (lists, tuples, int32/int64 arrays, empty sets), min_span from a grid that "
-          "contains exact segment spans, max_time strictly between distinct node times, each argument set under all "
-          "four store_pairs x store_segments choices through both entry points. Every summary, key set, per-pair "
-          "summary and segment array is compared with maximal runs of equal (path a->MRCA, path b->MRCA) signatures "
-          "computed per elementary interval from the edge rows. Distinct = sha1 of row tuples; non-trivial = has "
-          "edges."),
+          "unsquashed, (b) forest-walk generated tree sequences (internal samples, unary nodes, multiple roots, "
+          "gaps, unsquashed adjacent edges, 40-110 node 'wide' instances, one in ten with coordinates rescaled to "
+          "> 24 significant bits) and (c) extreme instances forced by case index ('ext': the genealogy at the top / "
+          "around 2^8, 2^15, 2^16, sqrt(2^31) of a 46 000 - 100 000 node table, one pair with > 255 and > 65 535 "
+          "segments, > 65 535 pairs in one result, 130 - 1 030 requested nodes under one edge, chains of 300 - 1 500 "
+          "unary links; 'manysets': > 65 536 between-sets), with default / within lists of arbitrary nodes / "
+          "between partitions (0, 1, many, empty, equal-sized sets) in 16 container forms (list, tuple, range, "
+          "numpy scalars, int8..uint64, big-endian, strided, read-only, 2-d array), min_span from a grid that "
+          "contains exact segment spans and the doubles next to them, max_time between node times, exactly on an "
+          "MRCA time (result must be the strict or the inclusive reading), next double above / below it, 0, -0.0, "
+          "inf, DBL_MAX, negative values (refused or as defined), numbers as int / float / numpy scalars, each "
+          "argument set under all four store_pairs x store_segments choices (True/False/None/0/1), every call "
+          "through one of 11 routes (ts, tc, copies, ts.tables, dump_tables, unpickled, no index, low-level module "
+          "by keyword / position / its own defaults). Every summary, key set (iteration, keys(), items(), values(), "
+          "pairs array, `in`, get), per-pair summary, segment array and IdentitySegment object is compared with "
+          "maximal runs of equal (path a->MRCA, path b->MRCA) signatures computed per elementary interval from the "
+          "edge rows; one reading must fit all four store options; earlier results must survive later calls, "
+          "segment lists must outlive their result, the same call twice must compare equal. Distinct = sha1 of row "
+          "tuples; non-trivial = has edges."),
     REQUIRED=["oracle:segments-equal-reference", "oracle:pair-summaries-equal-reference",
               "oracle:totals-equal-reference", "oracle:store-options-consistent", "oracle:disjoint-and-covering",
-              "oracle:must-raise", "exhaustive-small-forests"],
+              "oracle:must-raise", "exhaustive-small-forests", "ext:cases", "manysets:calls",
+              "boundary-calls(two-candidate gate)", "oracle:earlier-result-unchanged",
+              "oracle:same-call-equal-result", "oracle:list-outlives-result", "oracle:absent-pair-keyerror"],
     ASSUMPTIONS=ASSUME_COMMON + [
         "time[MRCA] == max_time and the per-link/per-edge-row reading of 'same path' on unsquashed edges are "
-        "EITHER zones (documentation and code differ / documentation is ambiguous)",
-        "node ids >= num_nodes are not fed (known defect D5 owned by C09)",
+        "EITHER zones (documentation and code differ / documentation is ambiguous): the result must equal one of "
+        "the candidate readings, the same one under all four store options",
+        "negative min_span / max_time may be refused or answered as defined; uint64 arrays inside `between` are not "
+        "fed (numpy promotes them to float64 next to a signed set, which is refused)",
+        "instances with > 3 000 requested pairs are read back in full for counts and spans, segment arrays for a "
+        "deterministic sample of about 200 pairs",
     ],
     BUDGET={"quick": 50.0, "thorough": 840.0},
     CASE_TIMEOUT={"quick": 60, "thorough": 240},
